@@ -7,7 +7,7 @@
 #include "source/uri.c"
 #include "contracts/uri_parser.h"
 
-#define GHOSTS_P() do { GHOST_RESET(); g_mc_n = 0; g_pu.ok = nondet_bool(); g_pu.val = nondet_u64(); g_pu.calls = 0; } while (0)
+#define GHOSTS_P() do { GHOST_RESET(); g_mc_on = true; g_mc_n = 0; g_pu.ok = nondet_bool(); g_pu.val = nondet_u64(); g_pu.calls = 0; } while (0)
 
 void h_parse_scheme(void) {
     struct uri_parser *p; struct aws_byte_cursor *s;
@@ -147,4 +147,14 @@ void h_parse_authority_exact(void) {
         CHECK(err && u.port == u0.port && raised == (g_pu.ok ? 1 : 2), "unparsable port or port > 2^32-1 is MALFORMED; port untouched");
         if (g_pu.ok) CANARY("port too large"); else CANARY("port not a number");
     }
+}
+
+/* ------------------------------------------------------------------ the state machine (state functions replaced by their contracts) */
+void h_init_from_uri_str(void) {
+    struct aws_uri *uri;
+    GHOST_RESET(); g_mc_on = false; g_mc_n = 0; g_pu.ok = nondet_bool(); g_pu.val = nondet_u64(); g_pu.calls = 0;
+    /* DFCC leaves every mutable static nondeterministic: the dispatch table of uri.c is written by nobody (assumption) */
+    s_states[ON_SCHEME] = s_parse_scheme; s_states[ON_AUTHORITY] = s_parse_authority; s_states[ON_PATH] = s_parse_path; s_states[ON_QUERY_STRING] = s_parse_query_string;
+    int r = s_init_from_uri_str(uri);
+    if (r == 0) CANARY("parsed"); else CANARY("malformed");
 }
